@@ -412,12 +412,26 @@ class CellDriver:
         self.H.groups.pop(name, None)
         self.ops.append(('del_group', name))
 
-    def op_alloc_update(self, key, spec):
+    def op_alloc_update(self, key, spec, force=False):
         a = self.alloc_objs[key]
         a.update(list(spec['reserved']), spec['rank'], spec['adj'], spec['maxutil'])
         h = self.H.allocs[key]
         h.update(reserved=spec['reserved'], rank=spec['rank'], adj=spec['adj'],
                  maxutil=spec['maxutil'])
+        if spec.get('traits') is not None and spec['traits'] != h['traits'] and (force or self.rng.random() < 0.7):
+            # loader.load_allocations changes the required traits of the existing Allocation object in place and
+            # the 'allocations' event re-loads every instance (load_apps -> cell.add_app with its assignment)
+            a.set_traits(spec['traits'])
+            h['traits'] = spec['traits']
+            for name in sorted(self.cell.apps):
+                app = self.cell.apps[name]
+                akey = (self.H.apps[name]['alloc'][0], tuple(self.H.apps[name]['alloc'][1]))
+                self.cell.add_app(self.alloc_objs[akey], app)
+                if akey == key:
+                    self.H.apps[name]['moved'] = True
+            self.mon.count('allocation_traits_changed_in_place')
+        else:
+            spec = dict(spec, traits=h['traits'])
         self.ops.append(('alloc_update', list(key), spec))
 
     def op_reload_cell(self):
@@ -529,7 +543,10 @@ class CellDriver:
         elif kind == 'alloc_update':
             key = self.gen_alloc_key()
             if key[1]:
-                self.op_alloc_update(key, self._gen_alloc_spec())
+                spec = self._gen_alloc_spec()
+                if H.trait_bits and rng.random() < 0.5:
+                    spec['traits'] = rng.choice(H.trait_bits + [0])
+                self.op_alloc_update(key, spec)
         elif kind == 'clock':
             self.op_clock(self.gen_clock_step())
         elif kind == 'reload_cell':
